@@ -531,6 +531,39 @@ func ruleAnswers(r *Run) {
 				}
 				r.Check("B5", site, true, fn.Body.Pos(), "refusal path examined for state changes and relays")
 			}
+			// B7: a silent handler drops a message only for a recognised reason
+			if !hi.Secondary && (hi.Respond == nil || !hi.HasReqID) && ret == "nil" && nErr == 0 && !hasSkip(path) {
+				acted := false
+				for _, me := range r.mutEvents(path) {
+					if !r.reportedFailure(path, me) {
+						acted = true
+					}
+				}
+				for _, ev := range path.Events {
+					if r.isRelay(ev) {
+						acted = true
+					}
+				}
+				if !acted {
+					reason := ""
+					for j, ev := range path.Events {
+						if ev.Kind != EvGuard {
+							continue
+						}
+						g := r.Classify(path, j)
+						switch {
+						case g.Failing && (strings.HasPrefix(g.Subject, "lookup:") || strings.HasPrefix(g.Subject, "owner:") || strings.HasPrefix(g.Subject, "zero:") || strings.HasPrefix(g.Subject, "err:")):
+							reason = g.String()
+						case strings.HasPrefix(g.Subject, "nil:var:") && g.Outcome == "nil":
+							reason = g.String()
+						case ev.GKind == GRange && !ev.Val:
+							reason = "nothing to iterate"
+						}
+					}
+					r.CheckT("B7", fmt.Sprintf("%s:silent-drop[%s]", fn.Name, sig), reason != "", fn.Body.Pos(), path,
+						"a well-formed message from a joined participant is dropped without effect and without a recognised reason (unknown / foreign target, missing field): an accepted change is neither applied nor relayed")
+				}
+			}
 			if pi < 2 && len(r.Samples) < 30 {
 				r.Sample("B1 %s path[%s] answers=%d(err %d) return=%s", fn.Name, sig, total, nErr, ret)
 			}
